@@ -620,6 +620,10 @@ func registerEnvStubs(e *Engine) {
 			if ps.flagDecide("flatten.plain") {
 				return tuple{iface{}, errIface(fr.i, "stub: expected map or list to GenerateNodeMap")}
 			}
+			// ... and on some invalid contexts (a non-boolean @protected) the processor panics
+			if ps.flagDecide("flatten.panic") {
+				panic(targetPanic{iface{t: types.Typ[types.String], v: "interface conversion: interface {} is float64, not bool"}})
+			}
 			named := fr.i.eng.namedType(ldPkg, "JsonLdError")
 			st := zero(named).(structure)
 			st[0] = "invalid local context"
@@ -935,6 +939,11 @@ func registerEnvStubs(e *Engine) {
 		*p = a[1]
 		fr.i.ps.dirty = fr.i.ps.dirty || fr.i.ps.gcells[p]
 		fr.i.ps.atomics++
+		// an atomic store is no data race, but overwriting package-level state is still visible to
+		// every other call in flight (a ticket counter may only be added to)
+		if fr.i.ps.gcells[p] && fr.i.ps.trackW {
+			fr.i.ps.resets = append(fr.i.ps.resets, "atomic store to package-level state at "+fr.i.ps.curPos())
+		}
 		return nil
 	}
 	for _, t := range []string{"Int64", "Int32", "Uint64", "Uint32"} {
